@@ -173,6 +173,8 @@ func runC10(c *core.Ctx) {
 		c.Fail("C10.R1", "deleteExpiredTokens/by-expiry", setAuth.Pos(), "no expiry purge of the token cache found (neither a helper nor an inline slices.DeleteFunc over accessTokens)")
 	}
 	_ = inlinePurgeOK
+	purgeTimeTakenUnderLock(c, "C10.R1")
+	firstTokenRequestAsksForUnion(c, "C10.R6")
 	if purge != nil {
 		purgeExaminesEveryToken(c, "C10.R1", []*ssa.Function{purge})
 	}
